@@ -980,7 +980,8 @@ pub struct KmerMinHashBTree {
     #[builder(default)]
     abunds: Option<BTreeMap<u64, u64>>,
 
-    #[builder(default = 0u64)]
+    // cache of the largest hash held: when the builder is given `mins` it must start out in step
+    #[builder(default = mins.iter().next_back().copied().unwrap_or(0))]
     current_max: u64,
 
     #[builder(default)]
